@@ -382,3 +382,134 @@ def c18(ck):
         ck.replay(r.cases, args=args, procs=16, timeout=3000)
         ck.extra.setdefault("bounds", {})[which] = consts
     ck.exhaustive = True
+
+
+def parse_race_reports(paths):
+    """-> list of (key, text) for data races whose BOTH accesses are in /repo code (github.com/jig/lisp)."""
+    import re
+    out = []
+    for p in paths:
+        try:
+            txt = open(p, errors="replace").read()
+        except Exception:
+            continue
+        for rep in txt.split("WARNING: DATA RACE")[1:]:
+            rep = rep.split("==================")[0]
+            blocks = re.split(r"\n\n", rep.strip())
+            access = [b for b in blocks if re.match(r"\s*(Write|Read|Previous write|Previous read|Atomic|Previous atomic)", b)]
+            sites = []
+            for b in access[:2]:
+                site = None
+                for line in b.splitlines()[1:]:
+                    line = line.strip()
+                    m = re.match(r"([\w./\-\[\]*()]+)\(", line)
+                    if not m:
+                        continue
+                    fn = m.group(1)
+                    if fn.startswith(("runtime.", "sync.", "sync/", "reflect.", "internal/")):
+                        continue
+                    site = fn
+                    break
+                sites.append(site or "?")
+            if len(sites) == 2 and all(s.startswith("github.com/jig/lisp") for s in sites):
+                short = sorted(s.replace("github.com/jig/lisp/", "").replace("github.com/jig/lisp.", "") for s in sites)
+                out.append(("race:" + "|".join(short), rep.strip()[:3000]))
+    return out
+
+
+def validate_trace(ck, module, trace_path, timeout=900):
+    """Direction B: TLC validates a recorded trace; returns (rejections "<index> <reason>", tlc_result)."""
+    import re, json
+    t = ck.tlc(module, "SPECIFICATION Spec\nCHECK_DEADLOCK FALSE\n", workers=1, env={"VERIF_TRACE": trace_path},
+               want_cases=False, timeout=timeout, heap="8g")
+    if t.exit != 0:
+        raise InfraError("%s failed on %s: exit %s\n%s" % (module, trace_path, t.exit, tail(t.stdout_path)))
+    rej = []
+    with open(t.stdout_path, errors="replace") as f:
+        for line in f:
+            if line.startswith('"REJECT '):
+                rej.append(json.loads(line.strip())[7:])
+    return rej, t
+
+
+def corrupt_selftest(ck, module, trace_path, mutate):
+    """Binding demonstration: a corrupted copy of a recorded trace must be REJECTED."""
+    import json
+    rows = [json.loads(l) for l in open(trace_path)]
+    if not mutate(rows):
+        return None
+    bad = trace_path + ".corrupt"
+    write_ndjson(bad, rows)
+    rej, _ = validate_trace(ck, module, bad)
+    if not rej:
+        raise InfraError("%s accepted a corrupted trace: the trace specification does not bind" % module)
+    return len(rej)
+
+
+@check("C09")
+def c09(ck):
+    import os, glob, json
+    ck.rule = ("model: AtomImpl.tla (RWMutex + cell + version, swap! as compare-and-set retry) checked exhaustively by TLC on "
+               "5 scenarios x 3 threads x 2 atoms (no lost update, failed swap keeps the cell, deadlock freedom, termination "
+               "under fairness); the same scenarios on the previous lock-held design are recorded as model counterexamples. "
+               "real code: the model's dangerous scenarios (self-read, AB/BA cross swaps) plus random scenarios (2..T threads "
+               "x 1..K operations of deref/reset!/swap! with pure, failing, atom-reading, self-reading, other-atom-swapping "
+               "functions, pr-str) run with real goroutines; hooks record linearization-point events under the lock; "
+               "TraceAtom.tla validates every recorded scenario; hangs judged structurally; a -race build runs the same")
+    q = ck.quick
+    # 1. design checking
+    for sc in (1, 2, 3, 4, 5):
+        props = ["CommitSeesCurrent", "FailedSwapKeepsCell"] + ([] if sc == 4 else ["Termination"])
+        c = cfg(constants={"DesignC": '"cas"', "ScenarioId": sc}, invariants=["TypeOK"], props=props,
+                extra="CONSTRAINT VerBound").replace("CHECK_DEADLOCK FALSE", "CHECK_DEADLOCK TRUE")
+        r = ck.tlc("MCAtom", c, timeout=900, deadlock=True, want_cases=False)
+        if r.exit != 0:
+            raise InfraError("AtomImpl (cas design) scenario %d: TLC exit %s\n%s" % (sc, r.exit, tail(r.stdout_path)))
+    old = {}
+    for sc in (3, 4):
+        c = cfg(constants={"DesignC": '"lockheld"', "ScenarioId": sc}, invariants=["TypeOK"]).replace(
+            "CHECK_DEADLOCK FALSE", "CHECK_DEADLOCK TRUE")
+        r = ck.tlc("MCAtom", c, timeout=300, deadlock=True, want_cases=False)
+        old["scenario%d" % sc] = "deadlock" if r.deadlock else "exit %s" % r.exit
+    ck.extra["previous_lockheld_design_on_model"] = old
+    # 2. real code, recorded and validated
+    n = 300 if q else 4000
+    trace = os.path.join(ck.scratch, "atoms.ndjson")
+    out = ck.harness(["atoms", "-n", str(n), "-seed", str(ck.seed), "-out", trace,
+                      "-threads", "4" if q else "6", "-ops", "4" if q else "6"], timeout=3000)
+    summary = out[-1]
+    for h in out[:-1]:
+        ck.report("deadlock:" + h["hang"], "scenario did not finish; goroutines parked: %s" % h["hang"],
+                  {"case": {"kind": "atom-scenario", "scenario": h["scenario"]}})
+    rej, t = validate_trace(ck, "TraceAtom", trace)
+    ck.traces_validated += summary["scenarios"] - summary["hangs"]
+    ck.evaluations += summary["scenarios"]
+    rows = [json.loads(l) for l in open(trace)]
+    ck.distinct |= {"scenario-%d" % i for i, r_ in enumerate(rows) if r_["ev"] == "begin"}
+    ck.samples += [rows[1:12]]
+    for line in rej[:50]:
+        idx, _, reason = line.partition(" ")
+        idx = int(idx)
+        lo = max(0, idx - 25)
+        ck.report("history:" + reason.replace(" ", "-")[:60], reason,
+                  {"case": {"kind": "atom-trace", "event_index": idx, "events": rows[lo:idx + 3]}})
+    # binding self-test: corrupt one installed value / drop one event
+    def mut(rows_):
+        for r_ in rows_:
+            if r_["ev"] == "set":
+                r_["val"] += 7
+                return True
+        return False
+    ck.extra["selftest_corrupted_trace_rejections"] = corrupt_selftest(ck, "TraceAtom", trace, mut)
+    # 3. race detector on the same driver
+    racelog = os.path.join(ck.scratch, "race")
+    ck.harness(["atoms", "-n", str(60 if q else 600), "-seed", str(ck.seed + 1), "-out", os.path.join(ck.scratch, "atoms-race.ndjson")],
+               race=True, timeout=3000, env={"GORACE": "log_path=%s halt_on_error=0 exitcode=0" % racelog})
+    races = parse_race_reports(glob.glob(racelog + "*"))
+    seen = set()
+    for key, text in races:
+        if key in seen:
+            continue
+        seen.add(key)
+        ck.report(key, "data race between two accesses in jig/lisp code", {"case": {"kind": "race", "report": text}})
+    ck.extra["race_reports_in_repo_code"] = len(races)
